@@ -58,6 +58,15 @@
 (*        table in a package-level variable": NoRace and TextEqual fail    *)
 (*        from every start state, even for printers of different modules   *)
 (*        (the cell does not belong to a module).                          *)
+(*   StaleLocals  TRUE: the module was printed and then edited (an unnamed *)
+(*        instruction inserted in front): every cached LocalID is off by   *)
+(*        one, the next print has to renumber (stale, not unassigned).     *)
+(*   Orphans, LockViaParent  Orphans = functions that were attached by     *)
+(*        hand (ir.NewFunc / literal + append to m.Funcs: Parent is nil).  *)
+(*        As the code is (LockViaParent = FALSE) AssignIDs locks the       *)
+(*        function's own mutex however it was attached.  TRUE = "AssignIDs *)
+(*        takes the parent module's mutex, and none when Parent is nil":   *)
+(*        two printers of an orphan run AssignIDs at the same time.        *)
 (*   LockGlobals, LockLocals  TRUE as the code; FALSE = "someone removed   *)
 (*        the Lock" (sensitivity checks for Mutex / NoRace).               *)
 (*                                                                         *)
@@ -104,7 +113,8 @@ CONSTANTS ModulePrinters, FuncPrinters, BlockPrinters,   \* disjoint sets of pro
           NG, NF, NL,             \* unnamed globals; functions; unnamed locals per function
           MdCase,                 \* selects MdInit, the metadata IDs of a fresh module (a cfg cannot hold a tuple)
           WriteOnlyIfChanged, StartPrinted, CachePrefilled, LockGlobals, LockLocals,
-          GCachePrefilled, FillGlobalCachesUnderLock, SharedScratch
+          GCachePrefilled, FillGlobalCachesUnderLock, SharedScratch,
+          StaleLocals, Orphans, LockViaParent
 
 Printers == ModulePrinters \cup FuncPrinters \cup BlockPrinters
 MdInit == CASE MdCase = 0 -> <<>>
@@ -132,7 +142,7 @@ WriteNeeded(old, new) == ~WriteOnlyIfChanged \/ old # new     \* setName: n.SetI
 variables
   gid = [x \in 1..NG |-> IF StartPrinted THEN WantG(x) ELSE 0],
   mid = [d \in 1..NM |-> IF StartPrinted THEN WantM[d] ELSE MdInit[d]],
-  lid = [h \in 1..NF |-> [x \in 1..NL |-> IF StartPrinted THEN WantL(x) ELSE 0]],
+  lid = [h \in 1..NF |-> [x \in 1..NL |-> IF StaleLocals THEN WantL(x) + 1 ELSE IF StartPrinted THEN WantL(x) ELSE 0]],
   typ = [h \in 1..NF |-> [x \in 1..NL |-> StartPrinted \/ CachePrefilled]],
   gtyp = [x \in 1..NG |-> StartPrinted \/ GCachePrefilled],
   scratch = 0,
@@ -143,7 +153,7 @@ variables
 define
   InitG(x) == IF StartPrinted THEN WantG(x) ELSE 0
   InitM(d) == IF StartPrinted THEN WantM[d] ELSE MdInit[d]
-  InitL(x) == IF StartPrinted THEN WantL(x) ELSE 0
+  InitL(x) == IF StaleLocals THEN WantL(x) + 1 ELSE IF StartPrinted THEN WantL(x) ELSE 0
   \* value a lone sequential call of p's entry point reads
   LoneG(p, x) == IF p \in ModulePrinters THEN WantG(x) ELSE InitG(x)
   LoneM(p, d) == IF p \in ModulePrinters THEN WantM[d] ELSE InitM(d)
@@ -206,7 +216,11 @@ PrG:  bad[self] := bad[self] \/ gid[c] # LoneG(self, c); c := c + 1;
   c := 1;
 \* ---- Func.LLString: AssignIDs ------------------------------------------
 LockF:
-  if LockLocals then await LockFree(fmu[f]); fmu[f] := self; end if;
+  if LockLocals /\ ~LockViaParent then
+    await LockFree(fmu[f]); fmu[f] := self;                            \* f.mu.Lock(): the function's own mutex
+  elsif LockLocals /\ f \notin Orphans then
+    await LockFree(mmu); mmu := self;                                  \* variant: f.Parent.mu.Lock(), nothing if Parent == nil
+  end if;
 AL:
   while c <= NL do
 RdT:  tmp := IF typ[f][c] THEN 1 ELSE 0;                               \* n.Type(): Typ == nil ?
@@ -216,7 +230,11 @@ WrL:  if WriteNeeded(tmp, WantL(c)) then lid[f][c] := WantL(c); end if;
       c := c + 1;
   end while;
 UnlockF:
-  if LockLocals then fmu[f] := 0; end if;
+  if LockLocals /\ ~LockViaParent then
+    fmu[f] := 0;
+  elsif LockLocals /\ f \notin Orphans then
+    mmu := 0;
+  end if;
   c := 1;
 \* ---- header and body: every read without a lock ------------------------
 EmG:
@@ -253,7 +271,7 @@ VARIABLES pc, gid, mid, lid, typ, gtyp, scratch, mmu, fmu, bad
 (* define statement *)
 InitG(x) == IF StartPrinted THEN WantG(x) ELSE 0
 InitM(d) == IF StartPrinted THEN WantM[d] ELSE MdInit[d]
-InitL(x) == IF StartPrinted THEN WantL(x) ELSE 0
+InitL(x) == IF StaleLocals THEN WantL(x) + 1 ELSE IF StartPrinted THEN WantL(x) ELSE 0
 
 LoneG(p, x) == IF p \in ModulePrinters THEN WantG(x) ELSE InitG(x)
 LoneM(p, d) == IF p \in ModulePrinters THEN WantM[d] ELSE InitM(d)
@@ -269,7 +287,7 @@ ProcSet == (Printers)
 Init == (* Global variables *)
         /\ gid = [x \in 1..NG |-> IF StartPrinted THEN WantG(x) ELSE 0]
         /\ mid = [d \in 1..NM |-> IF StartPrinted THEN WantM[d] ELSE MdInit[d]]
-        /\ lid = [h \in 1..NF |-> [x \in 1..NL |-> IF StartPrinted THEN WantL(x) ELSE 0]]
+        /\ lid = [h \in 1..NF |-> [x \in 1..NL |-> IF StaleLocals THEN WantL(x) + 1 ELSE IF StartPrinted THEN WantL(x) ELSE 0]]
         /\ typ = [h \in 1..NF |-> [x \in 1..NL |-> StartPrinted \/ CachePrefilled]]
         /\ gtyp = [x \in 1..NG |-> StartPrinted \/ GCachePrefilled]
         /\ scratch = 0
@@ -458,14 +476,19 @@ ScG(self) == /\ pc[self] = "ScG"
                              last, tmp >>
 
 LockF(self) == /\ pc[self] = "LockF"
-               /\ IF LockLocals
+               /\ IF LockLocals /\ ~LockViaParent
                      THEN /\ LockFree(fmu[f[self]])
                           /\ fmu' = [fmu EXCEPT ![f[self]] = self]
-                     ELSE /\ TRUE
+                          /\ mmu' = mmu
+                     ELSE /\ IF LockLocals /\ f[self] \notin Orphans
+                                THEN /\ LockFree(mmu)
+                                     /\ mmu' = self
+                                ELSE /\ TRUE
+                                     /\ mmu' = mmu
                           /\ fmu' = fmu
                /\ pc' = [pc EXCEPT ![self] = "AL"]
-               /\ UNCHANGED << gid, mid, lid, typ, gtyp, scratch, mmu, bad, c, 
-                               f, last, tmp >>
+               /\ UNCHANGED << gid, mid, lid, typ, gtyp, scratch, bad, c, f, 
+                               last, tmp >>
 
 AL(self) == /\ pc[self] = "AL"
             /\ IF c[self] <= NL
@@ -506,14 +529,18 @@ WrL(self) == /\ pc[self] = "WrL"
                              last, tmp >>
 
 UnlockF(self) == /\ pc[self] = "UnlockF"
-                 /\ IF LockLocals
+                 /\ IF LockLocals /\ ~LockViaParent
                        THEN /\ fmu' = [fmu EXCEPT ![f[self]] = 0]
-                       ELSE /\ TRUE
+                            /\ mmu' = mmu
+                       ELSE /\ IF LockLocals /\ f[self] \notin Orphans
+                                  THEN /\ mmu' = 0
+                                  ELSE /\ TRUE
+                                       /\ mmu' = mmu
                             /\ fmu' = fmu
                  /\ c' = [c EXCEPT ![self] = 1]
                  /\ pc' = [pc EXCEPT ![self] = "EmG"]
-                 /\ UNCHANGED << gid, mid, lid, typ, gtyp, scratch, mmu, bad, 
-                                 f, last, tmp >>
+                 /\ UNCHANGED << gid, mid, lid, typ, gtyp, scratch, bad, f, 
+                                 last, tmp >>
 
 EmG(self) == /\ pc[self] = "EmG"
              /\ IF c[self] <= NG
@@ -721,7 +748,10 @@ Mutex == /\ mmu \in {0} \cup Printers
          \* ID writes only by the holder of the guarding mutex
          /\ \A p \in Printers :
               /\ (pc[p] \in {"RdG", "WrG", "FgT", "FwT", "NxG", "RdM1", "RdM", "WrM"} => HolderIs(mmu, p))
-              /\ (pc[p] \in {"RdT", "WrT", "RdL", "WrL"} => HolderIs(fmu[f[p]], p))
+              \* the numbering of a function is exclusive however the function was attached
+              /\ (pc[p] \in {"RdT", "WrT", "RdL", "WrL"} =>
+                     \/ HolderIs(fmu[f[p]], p)
+                     \/ (LockViaParent /\ f[p] \notin Orphans /\ HolderIs(mmu, p)))
 
 \* every printer terminates (no deadlock between the two mutexes): checked as a liveness property
 Terminates == <>(\A p \in Printers : pc[p] = "Done")
